@@ -88,6 +88,9 @@ Proofs/Heap.vos Proofs/Heap.vok Proofs/Heap.required_vos: Proofs/Heap.v Base/Bas
 Proofs/Build.vo Proofs/Build.glob Proofs/Build.v.beautified Proofs/Build.required_vo: Proofs/Build.v Base/Base.vo Model/Reader.vo Model/Printer.vo Model/Api.vo Proofs/Heap.vo
 Proofs/Build.vio: Proofs/Build.v Base/Base.vio Model/Reader.vio Model/Printer.vio Model/Api.vio Proofs/Heap.vio
 Proofs/Build.vos Proofs/Build.vok Proofs/Build.required_vos: Proofs/Build.v Base/Base.vos Model/Reader.vos Model/Printer.vos Model/Api.vos Proofs/Heap.vos
+Proofs/Seq.vo Proofs/Seq.glob Proofs/Seq.v.beautified Proofs/Seq.required_vo: Proofs/Seq.v Base/Base.vo Model/Reader.vo Model/Printer.vo Model/Api.vo Proofs/Heap.vo Proofs/Build.vo
+Proofs/Seq.vio: Proofs/Seq.v Base/Base.vio Model/Reader.vio Model/Printer.vio Model/Api.vio Proofs/Heap.vio Proofs/Build.vio
+Proofs/Seq.vos Proofs/Seq.vok Proofs/Seq.required_vos: Proofs/Seq.v Base/Base.vos Model/Reader.vos Model/Printer.vos Model/Api.vos Proofs/Heap.vos Proofs/Build.vos
 Proofs/Depth.vo Proofs/Depth.glob Proofs/Depth.v.beautified Proofs/Depth.required_vo: Proofs/Depth.v Base/Base.vo Model/Reader.vo Model/Printer.vo Model/Store.vo Model/Eval.vo
 Proofs/Depth.vio: Proofs/Depth.v Base/Base.vio Model/Reader.vio Model/Printer.vio Model/Store.vio Model/Eval.vio
 Proofs/Depth.vos Proofs/Depth.vok Proofs/Depth.required_vos: Proofs/Depth.v Base/Base.vos Model/Reader.vos Model/Printer.vos Model/Store.vos Model/Eval.vos
@@ -157,6 +160,6 @@ Props/C18.vos Props/C18.vok Props/C18.required_vos: Props/C18.v Base/Base.vos Mo
 Props/C19.vo Props/C19.glob Props/C19.v.beautified Props/C19.required_vo: Props/C19.v Base/Base.vo Model/Reader.vo Model/Printer.vo Model/Store.vo Model/Eval.vo Model/Init.vo Proofs/Contexts.vo
 Props/C19.vio: Props/C19.v Base/Base.vio Model/Reader.vio Model/Printer.vio Model/Store.vio Model/Eval.vio Model/Init.vio Proofs/Contexts.vio
 Props/C19.vos Props/C19.vok Props/C19.required_vos: Props/C19.v Base/Base.vos Model/Reader.vos Model/Printer.vos Model/Store.vos Model/Eval.vos Model/Init.vos Proofs/Contexts.vos
-Props/C20.vo Props/C20.glob Props/C20.v.beautified Props/C20.required_vo: Props/C20.v Base/Base.vo Model/Reader.vo Model/Printer.vo Model/Api.vo Proofs/Heap.vo
-Props/C20.vio: Props/C20.v Base/Base.vio Model/Reader.vio Model/Printer.vio Model/Api.vio Proofs/Heap.vio
-Props/C20.vos Props/C20.vok Props/C20.required_vos: Props/C20.v Base/Base.vos Model/Reader.vos Model/Printer.vos Model/Api.vos Proofs/Heap.vos
+Props/C20.vo Props/C20.glob Props/C20.v.beautified Props/C20.required_vo: Props/C20.v Base/Base.vo Model/Reader.vo Model/Printer.vo Model/Api.vo Proofs/Heap.vo Proofs/Build.vo Proofs/Seq.vo
+Props/C20.vio: Props/C20.v Base/Base.vio Model/Reader.vio Model/Printer.vio Model/Api.vio Proofs/Heap.vio Proofs/Build.vio Proofs/Seq.vio
+Props/C20.vos Props/C20.vok Props/C20.required_vos: Props/C20.v Base/Base.vos Model/Reader.vos Model/Printer.vos Model/Api.vos Proofs/Heap.vos Proofs/Build.vos Proofs/Seq.vos
